@@ -336,7 +336,15 @@ def check_sup_and_wiring(project: Project, rep):
         call = [n for n in ast.walk(pnv) if isinstance(n, ast.Call) and
                 project.resolve(pn.module, n.func, local_names(pnv)) == PN]
         from .common import bind_call
+        n_default = 0
         for n in call:
+            opt_ = _only_with_optional(pnv, n)
+            if opt_:
+                # a call made only when an optional parameter is given (a newer option): not the norm the property names
+                rep.discharged("NM-WIRE", pn, n, f"{kind}: this call of _p_norm is reached only when `{opt_}` is passed (default "
+                                                 f"None): the default call p_norm(p) does not take it", nontrivial=False)
+                continue
+            n_default += 1
             b_ = {k: ast.unparse(expand_locals(pnv, v)) for k, v in bind_call(project.function(PN).node, n).items()}
             pv, cv = b_.get("p"), b_.get("critical_pairs")
             want = "self.critical_pairs" if kind == "exact" else "self.values_to_pairs()"
@@ -347,6 +355,8 @@ def check_sup_and_wiring(project: Project, rep):
                 rep.refuted("NM-WIRE", pn, n, f"{kind}: _p_norm is called with p={pv}, critical_pairs={cv} (expected p, {want})")
             else:
                 rep.unmodelled("NM-WIRE", pn, n, f"{kind}: arguments of _p_norm not recognised (p={pv}, critical_pairs={cv})")
+        if call and not n_default:
+            rep.refuted("NM-WIRE", pn, pn.node, f"{kind}: no call of _p_norm is reached by the default call p_norm(p)")
     check_lazy_reads(project, rep)
     base = project.function("persim.landscapes.base.PersLandscape.p_norm")
     rep.analysed(base)
@@ -445,6 +455,35 @@ def check_lazy_reads(project: Project, rep):
             else:
                 rep.discharged("NM-LAZY", m, reads[0][0].ast, f"{kind}.{mname}: every read of self.{attr} lies behind a call that "
                                                               f"always computes the landscape")
+
+
+def _only_with_optional(fnode, call):
+    """name of a parameter with default None such that `call` is reached only when it is not None (an `if x is not None:` arm, or
+    the code after `if x is None: return ...`); None otherwise"""
+    from ..core.cfg import CFG
+    a = fnode.args
+    pos = a.posonlyargs + a.args
+    dflt = dict(zip([x.arg for x in pos[len(pos) - len(a.defaults):]], a.defaults))
+    dflt.update({x.arg: d for x, d in zip(a.kwonlyargs, a.kw_defaults) if d is not None})
+    opt = {k for k, d in dflt.items() if isinstance(d, ast.Constant) and d.value is None}
+    if not opt:
+        return None
+    rebound = {t.id for n in ast.walk(fnode) if isinstance(n, (ast.Assign, ast.AugAssign, ast.AnnAssign))
+               for t in ast.walk(n.targets[0] if isinstance(n, ast.Assign) else n.target) if isinstance(t, ast.Name)}
+    cfg = CFG(fnode)
+    nd = cfg.node_of(call)
+    if nd is None:
+        return None
+    for t in cfg.nodes:
+        if t.kind != "test" or not isinstance(getattr(t.ast, "test", None), ast.Compare):
+            continue
+        c = t.ast.test
+        if len(c.ops) == 1 and isinstance(c.ops[0], (ast.Is, ast.IsNot)) and isinstance(c.left, ast.Name) and c.left.id in opt \
+                and c.left.id not in rebound and isinstance(c.comparators[0], ast.Constant) and c.comparators[0].value is None:
+            label = isinstance(c.ops[0], ast.IsNot)
+            if cfg.dominated_by_branch(nd.id, t.id, label):
+                return c.left.id
+    return None
 
 
 def run(project: Project, rep, tier: str):
